@@ -8,7 +8,7 @@ import hashlib
 from typing import List, Dict, Any, Optional
 
 from rtypes import parse_type
-from translate import (Translator, TranslateError, ThreadCtx, Loc, VRef, VLoc, VScalar, VAgg, VUnit, SNode, Storage,
+from translate import (Translator, Loc as Loc_, TranslateError, ThreadCtx, Loc, VRef, VLoc, VScalar, VAgg, VUnit, SNode, Storage,
                        sub)
 import srcdefs
 
@@ -19,6 +19,11 @@ typedef long isize;
 usize nondet_usize(void);
 _Bool nondet_bool(void);
 unsigned char nondet_uchar(void);
+#ifdef COVERMODE
+#define COVER(c) __CPROVER_cover(c)
+#else
+#define COVER(c) ((void)0)
+#endif
 """
 
 
@@ -40,6 +45,7 @@ class Harness:
         self.global_extra.append(f"_Bool g_park_token[{nthreads_hint + 1}];")
         self.global_extra.append("_Bool g_all_notifiers_done;")
         self.global_extra.append("usize g_progress;")
+        self.params = []
 
     # -- storage ---------------------------------------------------------------------------------
     def shared(self, name: str, ty: str) -> SNode:
@@ -51,6 +57,19 @@ class Harness:
     def cvar(self, name: str, ctype: str = "usize", shared=True, dims=()) -> str:
         (self.tr.globals if shared else self.tr.cur.storage).declare(ctype, name, list(dims))
         return name
+
+    def param(self, name: str, ctype: str = "usize") -> str:
+        """immutable harness input: nondet in main, passed BY VALUE to every thread (no shared-memory events)"""
+        self.main.storage.declare(ctype, name, [])
+        self.params.append((ctype, name))
+        return name
+
+    def freeze(self, node: SNode, path: str, value: str):
+        """leaf that never changes after construction (e.g. Vec lengths): replaced by a constant"""
+        n = self.nav(node, path)
+        while n.kind == "struct" and len(n.fields) == 1:
+            n = n.fields[0]
+        n.const = value
 
     def nav(self, node: SNode, path: str) -> SNode:
         if not path:
@@ -93,6 +112,8 @@ class Harness:
         idxs = [str(i) for i in idxs]
         if len(idxs) != n.ndims:
             raise TranslateError(f"{n.name}: {len(idxs)} indices for dims {n.dims}")
+        if getattr(n, "const", None) is not None:
+            return n.const
         return n.name + sub(idxs)
 
     def variant(self, node: SNode, path: str, vname: str) -> int:
@@ -126,7 +147,7 @@ class Harness:
         self.tr.emit(f"__CPROVER_assume({cond});")
 
     def cover(self, cond: str, msg: str):
-        self.tr.emit(f'__CPROVER_cover({cond}); /* COVER {msg} */')
+        self.tr.emit(f'COVER({cond}); /* COVER {msg} */')
         self.covers.append(msg)
 
     def ref(self, node: SNode, path: str = "", idxs=()) -> VRef:
@@ -150,7 +171,7 @@ class Harness:
         n = len(self.threads)
         out.append(f"_Bool g_done[{n + 1}];")
         for t in self.threads:
-            out.append(f"void thread_{t.name}(void) {{")
+            out.append(f"void thread_{t.name}({', '.join(f'{ct} {nm}' for ct, nm in self.params) or 'void'}) {{")
             out += t.storage.render("  ")
             out += t.lines
             out.append(f"  __CPROVER_atomic_begin(); g_done[{t.tid}] = 1; __CPROVER_atomic_end();")
@@ -166,7 +187,7 @@ class Harness:
             cur.append(ln)
         out += pre
         for t in self.threads:
-            out.append(f"  __CPROVER_ASYNC_{t.tid}: thread_{t.name}();")
+            out.append(f"  __CPROVER_ASYNC_{t.tid}: thread_{t.name}({', '.join(nm for _ct, nm in self.params)});")
         if self.threads and self.join_all:
             out.append("  __CPROVER_assume(" + " && ".join(f"g_done[{t.tid}]" for t in self.threads) + ");")
         out += post
@@ -200,8 +221,9 @@ def run_cbmc(cfile: str, unwind: int, timeout: int, extra: List[str] = (), mem_g
     cmd = ["cbmc", cfile, "--unwind", str(unwind), "--json-ui", "--no-pointer-check", "--no-built-in-assertions",
            "--no-undefined-shift-check", "--no-pointer-primitive-check", "--no-signed-overflow-check",
            "--no-div-by-zero-check"]
+    cmd += ["--sat-solver", "cadical"]
     if cover:
-        cmd += ["--cover", "cover"]
+        cmd += ["--cover", "cover", "-DCOVERMODE"]
     else:
         cmd += ["--unwinding-assertions", "--trace"]
     cmd += list(extra)
